@@ -114,9 +114,19 @@ pub fn hash_str(s: &str) -> u64 {
 }
 
 impl Ctx {
+    /// a context for re-judging during shrinking: no clean-up of earlier run-time output
+    pub fn scratch(property: &'static str) -> Ctx {
+        Ctx::new_(property, Tier::Quick, 0, false)
+    }
+
     pub fn new(property: &'static str, tier: Tier, seed: u64) -> Ctx {
+        Ctx::new_(property, tier, seed, true)
+    }
+
+    fn new_(property: &'static str, tier: Tier, seed: u64, clean: bool) -> Ctx {
         // stale run-time output of earlier failing runs
-        if let Ok(rd) = std::fs::read_dir(format!("{}/replays/{property}", out_dir())) {
+        if !clean {
+        } else if let Ok(rd) = std::fs::read_dir(format!("{}/replays/{property}", out_dir())) {
             for e in rd.flatten() {
                 if e.file_name().to_string_lossy().starts_with("viol-") {
                     let _ = std::fs::remove_file(e.path());
